@@ -9,7 +9,7 @@
 // (replicationAsMin), large (volume reported at/above the size limit), ro (replica 1 reports
 // read-only), with (1 = a bystander volume 2 lives on the same servers in the same layout, its
 // garbage is always below the threshold), wait (seconds the driver waits for Vacuum to
-// return), s = [ {check, compact, commit, cleanup} per replica ] with outcomes
+// return), zfast (the master's compact timer is due at once, see fastLimit), s = [ {check, compact, commit, cleanup} per replica ] with outcomes
 //   check:   hi | lo | err | timeout        compact: ok | err | timeout
 //   commit:  ok | ro | err | timeout        cleanup: ok | err | timeout      ("na" = not expected)
 // "timeout" = the handler does not answer until the execution is over.
@@ -44,6 +44,11 @@ import (
 
 const (
 	sizeLimit = 1000 // bytes; timers in topology_vacuum.go become 1 min (check) and 3 min (compact)
+	// zfast executions: with this volume size limit the compact wait of topology_vacuum.go,
+	// 3*time.Minute*time.Duration(limit/1024/1024/1000+1), overflows int64 to a negative duration
+	// (the timer is due at once) while the check wait, time.Minute*(same factor), stays positive
+	// (~114 years): a compaction that does not answer immediately has "timed out" within microseconds.
+	fastLimit = 59999999 * 1000 * 1024 * 1024
 	theVid    = 1
 	byVid     = 2
 )
@@ -234,6 +239,17 @@ func writables(vl *topology.VolumeLayout) []int {
 
 func runExec(sl *slot, script []tr.Ev) []tr.Ev {
 	reset := script[0]
+	if tr.B(reset, "zfast") {
+		// the master may return while compaction RPCs of its goroutines are still on their way:
+		// such stragglers must not land in the next execution, so these executions get servers of
+		// their own (a straggler then meets a closed execution and is not recorded)
+		sl = newSlot()
+		defer func() {
+			for _, s := range sl.vs {
+				s.srv.Stop()
+			}
+		}()
+	}
 	n := tr.I(reset, "n")
 	if n < 1 || n > 3 {
 		tr.Fatal("n out of range: %v", reset["n"])
@@ -250,7 +266,14 @@ func runExec(sl *slot, script []tr.Ev) []tr.Ev {
 	// a fresh master topology; data nodes join and report volumes the way
 	// MasterServer.SendHeartbeat does (master_grpc_server.go): GetOrCreateDataCenter /
 	// GetOrCreateRack / GetOrCreateDataNode, AdjustMaxVolumeCounts, SyncDataNodeRegistration.
-	topo := topology.NewTopology("topo", sequence.NewMemorySequencer(), sizeLimit, 5, tr.B(reset, "minok"))
+	limit := uint64(sizeLimit)
+	if tr.B(reset, "zfast") {
+		if tr.B(reset, "large") {
+			tr.Fatal("zfast and large cannot be combined")
+		}
+		limit = fastLimit
+	}
+	topo := topology.NewTopology("topo", sequence.NewMemorySequencer(), limit, 5, tr.B(reset, "minok"))
 	// copy count = 1 + the digits of the placement "xyz" (each at most 2)
 	rpBytes := map[int]uint32{1: 0, 2: 1, 3: 2, 4: 12, 5: 22}
 	rpByte, known := rpBytes[copies]
